@@ -137,6 +137,9 @@ def run_one(chk, cfg, mode, drv_lines, keep, with_resume):
     betas = [float(b) for b in res["sampler"].history.beta] if res["sampler"].history else []
     chk.case({"cfg": cfg, "mode": mode, "status": res["status"], "iterations": len(betas)} if chk.evaluations < 8 else None,
              key if len(betas) >= 2 else None)
+    if smcrun.collapsed_population(res):
+        chk.count("skipped:population_collapsed_rejected_by_library")
+        return
     if res["status"] != "done":
         chk.fail("run total", case, repr(res.get("exc")), {"clause": "raise"})
         return
